@@ -1,12 +1,12 @@
 SPECIFICATION Spec
 CONSTANTS
   Configs <- TheConfigs
-  Ns = {0, 1}
-  NestSets <- NestSmall
+  Ns = {3}
+  NestSets <- NestLive3
   Bounds <- BoundsLive
   Pools = {FALSE, TRUE}
   Fds = {FALSE, TRUE}
-  ScriptLen = 2
+  ScriptLen = 1
   LongScripts = TRUE
   FdStop = TRUE
   SkipAll = FALSE
